@@ -81,7 +81,8 @@ def make_problem(cplx=False):
     a = ift.ScalingOperator(d, 1.).ducktape("a")
     b = ift.ScalingOperator(d, 1.).ducktape("b")
     if cplx:        # complex-valued data and residuals
-        op = a.real + 1j * (0.3 * b).ptw("exp")
+        cast = ift.Realizer(d).adjoint          # real -> complex; its adjoint takes the real part (real gradients)
+        op = cast @ a + 1j * (cast @ (0.3 * b).ptw("exp"))
         data = ift.Field.from_raw(d, np.array([1.3 + 0.2j, 0.7 - 1j, -0.2 + 0.5j, 2.1 + 0j]))
         lh = ift.GaussianEnergy(data, ift.ScalingOperator(d, 4., np.complex128)) @ op
         return lh, op
@@ -143,7 +144,7 @@ def run_once(cfg, total, resume, outdir, known_dirs, init_index=0):
     rec = Recorder()
     lh, op = make_problem(cfg.get("cplx", False))
 
-    class RecMin(ift.NewtonCG):
+    class Recording:
         def __call__(self, energy):
             n = 0
             if hasattr(energy, "samples"):
@@ -151,15 +152,31 @@ def run_once(cfg, total, resume, outdir, known_dirs, init_index=0):
             rec.acts.append(("min", rec.cur(), n))
             return super().__call__(energy)
 
+    class RecMin(Recording, ift.NewtonCG):
+        pass
+
+    class RecVL(Recording, ift.VL_BFGS):        # a minimiser that does not want the metric
+        pass
+
     mini = RecMin(ift.AbsDeltaEnergyController(1e-3, iteration_limit=2))
+    mini_vl = RecVL(ift.AbsDeltaEnergyController(1e-3, iteration_limit=2))
+    sched = cfg.get("mini_sched", "const")
+    if sched == "vl_newton":            # warm-up schedule: metric-free first, Newton afterwards
+        kl_minimizer = lambda i: mini_vl if i == 0 else mini
+    elif sched == "newton_vl":
+        kl_minimizer = lambda i: mini if i == 0 else mini_vl
+    elif sched == "alternate":
+        kl_minimizer = lambda i: mini_vl if i % 2 else mini
+    else:
+        kl_minimizer = (lambda i: mini) if cfg["callables"] else mini
     ic = ift.AbsDeltaEnergyController(1e-3, iteration_limit=4) if cfg["sic"] else None
     nl = ift.NewtonCG(ift.AbsDeltaEnergyController(1e-3, iteration_limit=2)) if cfg["nonlinear"] else None
     init = ift.from_random(lh.domain, std=0.1)
     kw = dict(likelihood_energy=(lambda i: lh) if cfg["callables"] else lh,
               total_iterations=total,
               n_samples=(lambda i: tab(cfg["ns"], i)) if (cfg["callables"] or len(set(cfg["ns"])) > 1) else cfg["ns"][0],
-              kl_minimizer=(lambda i: mini) if cfg["callables"] else mini,
-              sampling_iteration_controller=ic,
+              kl_minimizer=kl_minimizer,
+              sampling_iteration_controller=(lambda i: ic) if cfg["callables"] else ic,
               nonlinear_sampling_minimizer=(lambda i: nl) if cfg["callables"] else nl,
               output_directory=outdir, save_strategy=cfg["save"],
               plot_energy_history=cfg["plot_e"], plot_minisanity_history=cfg["plot_m"],
@@ -173,6 +190,8 @@ def run_once(cfg, total, resume, outdir, known_dirs, init_index=0):
         kw["constants"] = ["a"]
     elif cfg["constants"] == "callable":
         kw["constants"] = lambda i: ["a"]
+    elif cfg["constants"] == "sched":
+        kw["constants"] = lambda i: ["a"] if i % 2 == 0 else []
     if cfg["pes"] == "list":
         kw["point_estimates"] = ["b"]
     elif cfg["pes"] == "callable":
@@ -277,8 +296,13 @@ def run_once(cfg, total, resume, outdir, known_dirs, init_index=0):
                 o["single_equals_mean"] = all(np.array_equal(s0[k].asnumpy(), mean[k].asnumpy()) for k in mean.keys())
             resumed_from_file = resume and last0 is not None
             transformed = any(a[0] == "trans" for a in rec.acts)
-            if (cfg["init_pos"] and cfg["constants"] != "none" and not cfg["dry"] and "a" in mean.keys()
-                    and not resumed_from_file and not transformed):
+            comparable = cfg["init_pos"] and not cfg["dry"] and not resumed_from_file and not transformed \
+                and any(a[0] == "min" for a in rec.acts)
+            if comparable:
+                # every key that is not held constant must have been optimised (moved away from the start)
+                free = [k for k in mean.keys() if not (k == "a" and cfg["constants"] != "none")]
+                o["not_moved"] = [k for k in free if np.array_equal(mean[k].asnumpy(), init[k].asnumpy())]
+            if comparable and cfg["constants"] in ("list", "callable") and "a" in mean.keys():
                 o["constant_kept"] = bool(np.array_equal(mean["a"].asnumpy(), init["a"].asnumpy()))
     # put the RNG stack back (a leak must not influence the next configuration)
     while len(R._sseq) > depth0:
@@ -355,6 +379,9 @@ def direct_failures(cfg, total, resume, outdir, o, valid, no_history=False):
             out.append(({"defect": "result_shape"}, "return_final_position=%s but tuple=%s" % (cfg["ret_pos"], o["tuple"])))
         if o.get("single_equals_mean") is False:
             out.append(({"defect": "result_shape"}, "zero samples: the single sample differs from the mean"))
+        if o.get("not_moved"):
+            out.append(({"defect": "not_optimised"}, "keys %s are not held constant but still have their initial value after the run"
+                        % o["not_moved"]))
         if o.get("constant_kept") is False:
             out.append(({"defect": "constants"}, "a constant key changed its value"))
         mins = [a for a in o["acts"] if a[0] == "min"]
@@ -441,7 +468,8 @@ PARAMS = {
     "trans": [None, [False], [False, True]],
     "ret_pos": [False, True],
     "export": [False, True],
-    "constants": ["none", "list", "callable"],
+    "constants": ["none", "list", "callable", "sched"],
+    "mini_sched": ["const", "vl_newton", "newton_vl", "alternate"],
     "pes": ["none", "list", "callable"],
     "sic": [True, False],
     "nonlinear": [False, True],
@@ -506,7 +534,7 @@ def base_cfg(**kw):
     c = {"total": 2, "ns": [2], "outdir": False, "save": "latest", "plot_e": False, "plot_m": False, "resume": "no",
          "sanity": True, "dry": False, "fresh": [True], "term": None, "inspect": 2, "trans": None, "ret_pos": True,
          "export": False, "constants": "none", "pes": "none", "sic": True, "nonlinear": False, "callables": False,
-         "init_pos": False, "init": 0, "cplx": False, "prefill": True}
+         "init_pos": False, "init": 0, "cplx": False, "prefill": True, "mini_sched": "const"}
     c.update(kw)
     return c
 
@@ -525,6 +553,14 @@ SPECIAL = [
     ("valid", base_cfg(total=4, fresh=[True, False, False, False], outdir=True, resume="continue", term=[False, True], inspect=1)),
     ("valid", base_cfg(total=3, fresh=[True, False, False], outdir=True, resume="continue", save="all")),
     ("valid", base_cfg(total=3, fresh=[True, False, False], init=2, ns=[1])),
+    # minimiser schedules in both orders with zero-sample (MAP) and sampled iterations
+    ("valid", base_cfg(total=3, ns=[0], mini_sched="vl_newton", init_pos=True)),
+    ("valid", base_cfg(total=3, ns=[0, 2, 0], mini_sched="vl_newton", outdir=True)),
+    ("valid", base_cfg(total=3, ns=[0], mini_sched="newton_vl")),
+    ("valid", base_cfg(total=3, ns=[2, 0], mini_sched="alternate", constants="sched", init_pos=True)),
+    # constants with samples: the constant key keeps its value AND the other key is optimised
+    ("valid", base_cfg(total=2, ns=[2], constants="list", init_pos=True)),
+    ("valid", base_cfg(total=2, ns=[1, 0], constants="callable", pes="list", init_pos=True, nonlinear=True)),
     # complex-valued data with every output switched on
     ("valid", base_cfg(total=2, cplx=True, outdir=True, plot_e=True, plot_m=True, export=True)),
     ("valid", base_cfg(total=2, cplx=True, outdir=True, plot_m=True, ns=[0, 2], save="all", resume="continue")),
